@@ -1,0 +1,85 @@
+//go:build verif
+
+package codec
+
+// Contracts for buff.go and commands.go, read by the rcvc verifier in /verif (comment-only; adds no code).
+
+//@ use bytes
+
+//@ define bwf(b) = 0 <= b.r && b.r <= len(b.buf)
+//@ define left(b) = len(b.buf) - b.r
+//@ define lf(b) = bidx(b.buf[b.r:], '\n')
+
+//@ func NewBuffer
+//@   props C08 C12
+//@   modifies buffer.r, buffer.buf
+//@   ensures result == buffer && result.r == 0
+//@   ensures len(bs) == 0 ==> result.buf == nil
+//@   ensures len(bs) > 0 ==> result.buf == bs
+
+//@ func Buffer.Empty
+//@   props C08 C12
+//@   flags pure
+//@   ensures result == (len(b.buf) < 1)
+
+//@ func Buffer.TotalSize
+//@   props C08 C12
+//@   flags pure
+//@   ensures result == len(b.buf)
+
+//@ func Buffer.ReadSize
+//@   props C08 C12
+//@   flags pure
+//@   ensures result == b.r
+
+//@ func Buffer.ReadBuf
+//@   props C08 C12
+//@   flags pure
+//@   requires bwf(b)
+//@   ensures result == b.buf[0:b.r]
+
+//@ func Buffer.PeekAll
+//@   props C08 C12
+//@   flags pure
+//@   ensures result == b.buf
+
+//@ func Buffer.ReadN
+//@   props C08 C12
+//@   modifies b.r
+//@   requires bwf(b) && n >= 0
+//@   ensures[wf] bwf(b)
+//@   ensures[empty] old(left(b)) < 1 ==> result1 == EmptyLine && result0 == nil && b.r == old(b.r)
+//@   ensures[short] old(left(b)) >= 1 && n > old(left(b)) ==> result1 == ShortLine && result0 == nil && b.r == old(b.r)
+//@   ensures[ok] old(left(b)) >= 1 && n <= old(left(b)) ==> result1 == nil && b.r == old(b.r) + n && result0 == old(b.buf[b.r : b.r+n])
+
+//@ func Buffer.PeekN
+//@   props C08 C12
+//@   flags pure
+//@   requires bwf(b) && n >= 0
+//@   ensures[empty] left(b) < 1 ==> result1 == EmptyLine && result0 == nil
+//@   ensures[short] left(b) >= 1 && n > left(b) ==> result1 == ShortLine && result0 == nil
+//@   ensures[ok] left(b) >= 1 && n <= left(b) ==> result1 == nil && result0 == b.buf[b.r : b.r+n]
+
+//@ func Buffer.ReadLine
+//@   props C08 C12
+//@   modifies b.r
+//@   requires bwf(b)
+//@   ensures[wf] bwf(b) && b.r >= old(b.r)
+//@   ensures[empty] old(left(b)) < 1 ==> result1 == EmptyLine && result0 == nil && b.r == old(b.r)
+//@   ensures[nolf] old(left(b)) >= 1 && old(lf(b)) < 0 ==> result1 == ErrLFNotFound && result0 == nil && b.r == old(b.r)
+//@   ensures[adv] old(left(b)) >= 1 && old(lf(b)) >= 0 ==> b.r == old(b.r) + old(lf(b)) + 1
+//@   ensures[tiny] old(left(b)) >= 1 && old(lf(b)) >= 0 && old(lf(b)) < 2 ==> result1 == EmptyLine && result0 == nil
+//@   ensures[nocr] old(lf(b)) >= 2 && old(b.buf[b.r + lf(b) - 1]) != '\r' ==> result1 == ErrInvalidResp && result0 == nil
+//@   ensures[ok] old(lf(b)) >= 2 && old(b.buf[b.r + lf(b) - 1]) == '\r' ==> result1 == nil && result0 == old(b.buf[b.r : b.r + lf(b) - 1])
+//@   ensures[nonempty] result1 == nil ==> len(result0) >= 1
+
+//@ func toLower
+//@   props C02 C17
+//@   modifies elems(bs)
+//@   ensures[lower] forall k int :: 0 <= k && k < len(bs) ==> bs[k] == ite(old(bs[k]) >= 'A' && old(bs[k]) <= 'Z', old(bs[k]) + 32, old(bs[k]))
+//@   loop 0
+//@     invariant 0 <= i && i <= len(bs)
+//@     invariant forall k int :: 0 <= k && k < i ==> bs[k] == ite(old(bs[k]) >= 'A' && old(bs[k]) <= 'Z', old(bs[k]) + 32, old(bs[k]))
+//@     invariant forall k int :: i <= k && k < len(bs) ==> bs[k] == old(bs[k])
+//@     invariant forall r Ref, j int :: (r != bs.base || j < bs.off || j >= bs.off + len(bs)) ==> rawbyte(r, j) == old(rawbyte(r, j))
+//@     decreases len(bs) - i
